@@ -47,6 +47,7 @@ class Acc(object):
         self.failures = {}          # key -> [count, [records...]]
         self.samples = []
         self.extra = collections.Counter()   # free-form integer tallies (states, transitions ...)
+        self.sets = {}                       # name -> set of hashes (distinct explicit states etc.), merged by union
         self.errors = []
 
     def merge(self, o):
@@ -67,6 +68,8 @@ class Acc(object):
             if len(self.samples) < 12:
                 self.samples.append(s)
         self.extra.update(o.extra)
+        for k, v in o.sets.items():
+            self.sets.setdefault(k, set()).update(v)
         self.errors.extend(o.errors[:5])
 
 
@@ -151,6 +154,10 @@ class Ch(object):
 
     def tally(self, name, n=1):
         self.acc.extra[name] += n
+
+    def see(self, name, item):
+        """record a distinct explicit state / observation under `name` (counted exactly in the evidence)"""
+        self.acc.sets.setdefault(name, set()).add(hash(item))
 
 
 def _advance(vec, arity, floor):
